@@ -63,7 +63,7 @@ FIXED = {
 LEAN_T = {"nat": "Nat", "val": "ν", "bool": "Bool", "gene": "Gene ν", "mut": "Mut ν", "level": "Level",
           "reason": "Reason", "text": "Unit", "gtype": "GType"}
 REASONS = {"": "Reason.user", "rollback": "Reason.rollback", "replication_mutation": "Reason.replication",
-           "random_mutation": "Reason.random"}
+           "random_mutation": "Reason.random", "add_gene": "Reason.readd"}
 LEVELS = {"SILENCED": "Level.silenced", "LOW": "Level.low", "NORMAL": "Level.normal", "HIGH": "Level.high",
           "OVEREXPRESSED": "Level.over"}
 GTYPES = {"STRUCTURAL": "GType.structural", "REGULATORY": "GType.regulatory", "HOUSEKEEPING": "GType.housekeeping",
@@ -347,6 +347,17 @@ class Translator:
             if n.id in env["locals"]:
                 return env["locals"][n.id]
             bad(n, f"name {n.id}")
+        if isinstance(n, ast.Subscript) and is_self_attr(n.value, "_genes"):
+            key = ast.unparse(n.slice)
+            if key not in env["present"]:
+                bad(n, f"self._genes[{key}] without a dominating presence test")
+            return env["present"][key], "gene"
+        if isinstance(n, ast.Attribute) and isinstance(n.value, ast.Subscript) and is_self_attr(n.value.value, "_genes"):
+            c, _ = self.ex(n.value, env)
+            for py, lean, ft in GENE_FIELDS:
+                if py == n.attr:
+                    return ("()" if lean is None else f"{c}.{lean}"), ft
+            bad(n, f"attribute {ast.unparse(n)}")
         if isinstance(n, ast.Attribute):
             if is_self_attr(n, "allow_mutations"):
                 return "g.allow", "bool"
@@ -474,6 +485,34 @@ class Translator:
                         f"{pad}| some {var} =>\n{self.body(rest, env2, ind + 2)}")
             then_b = st.body + ([] if returns(st.body) else rest)
             else_b = st.orelse + ([] if (st.orelse and returns(st.orelse)) else rest)
+            # `if X in self._genes:` / `if X in self._genes and REST:` -> the lookup is bound in the then-branch
+            # (`self._genes[X]` may be read there); the else-branch is taken when the gene is missing or REST fails
+            def is_member(x):
+                return (isinstance(x, ast.Compare) and len(x.ops) == 1 and isinstance(x.ops[0], ast.In)
+                        and is_self_attr(x.comparators[0], "_genes"))
+            mem, more = None, None
+            if is_member(t):
+                mem, more = t, None
+            elif isinstance(t, ast.BoolOp) and isinstance(t.op, ast.And) and is_member(t.values[0]):
+                mem = t.values[0]
+                more = t.values[1] if len(t.values) == 2 else ast.BoolOp(op=ast.And(), values=t.values[1:])
+            if mem is not None and any(isinstance(x, ast.Subscript) and is_self_attr(x.value, "_genes")
+                                       and ast.unparse(x.slice) == ast.unparse(mem.left)
+                                       for s_ in st.body for x in ast.walk(s_)):
+                c, ty = self.ex(mem.left, env)
+                if ty != "nat":
+                    bad(t, f"membership of a {ty}")
+                var = "in_genes_" + "".join(ch if ch.isalnum() else "_" for ch in ast.unparse(mem.left))
+                env2 = copy.deepcopy(env)
+                env2["present"][ast.unparse(mem.left)] = var
+                if more is None:
+                    inner_code = self.body(then_b, env2, ind + 2)
+                else:
+                    synth = ast.copy_location(ast.If(test=more, body=then_b, orelse=else_b), st)
+                    inner_code = self.body([synth], env2, ind + 2)
+                return (f"{pad}match findGene g.genes {paren(c)} with\n"
+                        f"{pad}| none =>\n{self.body(else_b, copy.deepcopy(env), ind + 2)}\n"
+                        f"{pad}| some {var} =>\n{inner_code}")
             # `if [not] self._helper(args):` -> inline the helper, its returns continue into the two branches
             neg, core = False, t
             while isinstance(core, ast.UnaryOp) and isinstance(core.op, ast.Not):
